@@ -254,7 +254,10 @@ def lp_campaign(c, ctx, r, nprogs, mask, gvt_slack=(0, 0, 1, 3), steps=400, work
         if worker and ck > 0 and rc == 0:
             rm, om, em = V.run([ctx["mexe"], "worker", pf, str(ck)], inp="\n".join(script) + "\n", timeout=600)
             A = open(lsf).read().split("\n") if os.path.exists(lsf) else []
-            B = om.split("\n")
+            B = [l for l in om.split("\n") if not l.startswith("T ")]
+            if "T 1" not in om.split("\n") and rm == 0:
+                # the program is outside the hypothesis of the no-error / exactly-once theorems: the generator must not produce it
+                c.violation("worker-theorem-hypothesis", dict(kind="generator", what="types_okb false for a generated program", program=text), found_input=False)
             wops = sum(1 for l in A if l.startswith("S "))
             i = next((j for j in range(min(len(A), len(B))) if A[j] != B[j]), None)
             if rm != 0 or i is not None or len(A) != len(B):
